@@ -615,3 +615,53 @@ Proof.
   rewrite finish_buf, finish_regs, finish_row, finish_off by exact Hrow. unfold st. cbn [vs_pos v_row v_off]. rewrite G.
   repeat split; try reflexivity; try (exact Eb').
 Qed.
+
+(* ---------- g~~ guu gUU with a count ---------- *)
+Lemma case_line_wf op l : line_wf l -> line_wf (map (case_chr op) l).
+Proof.
+  intros (body & -> & Hb). rewrite map_app. exists (map (case_chr op) body). split; [|apply nonl_map_case, Hb].
+  f_equal. destruct op; reflexivity.
+Qed.
+Lemma refines_case_lines rows e (op : okey) cnt e1 l0 : (op = Otilde \/ op = Ogu \/ op = OgU) ->
+  let b := s_buf e in let s := s_vs e in
+  buf_wf b -> cursor_ok b (v_row s) (v_off s) -> getl b (v_row s) = Some l0 -> 0 <= cnt ->
+  exec1 rows (COp 0%N cnt op 0 TDbl []) e = Some e1 ->
+  let r2 := Z.min (v_row s + Z.max 1 cnt - 1) (blen b - 1) in
+  let b' := firstn (Z.to_nat (v_row s)) b ++ map (map (case_chr op)) (rows_between b (v_row s) (r2 + 1)) ++ skipn (Z.to_nat (r2 + 1)) b in
+  s_buf e1 = b' /\ s_regs e1 = s_regs e /\ v_row (s_vs e1) = r2 /\
+  v_off (s_vs e1) = ren_noeol (getl b' r2) (lbuf_indents b' r2).
+Proof.
+  intros Hop b s HW Hc El Hn X r2 b'.
+  assert (Hr : 0 <= v_row s < blen b) by (apply getl_some in El; lia).
+  assert (Ecnt : (if cnt =? 0 then 1 else cnt) * (if 0 =? 0 then 1 else 0) = Z.max 1 cnt) by (destruct (Z.eqb_spec cnt 0); cbn; lia).
+  set (o1 := ren_noeol (getl b (v_row s)) (v_off s)).
+  assert (T : op_target b rows s cnt 0 TDbl o1 = TOk Kunder r2 (-1) (v_cl s) (v_cc s) (v_pcol s)).
+  { unfold op_target. rewrite Ecnt. fold r2. destruct (Z.ltb_spec r2 0); [unfold r2 in *; lia|]. reflexivity. }
+  cbn [exec1] in X. unfold exec_op in X. fold b s o1 in X. rewrite T in X.
+  change (v_row (vs_mot s (v_cl s) (v_cc s) (v_pcol s))) with (v_row s) in X.
+  destruct (vc_region_line b Kunder (v_row s) o1 r2 (-1) ltac:(lia)) as (G1 & G2 & G3).
+  set (g := vc_region b Kunder (v_row s) o1 r2 (-1)) in *.
+  assert (Hr2 : v_row s <= r2 < blen b) by (unfold r2; lia).
+  rewrite Z.min_l in G2 by lia. rewrite Z.max_r in G3 by lia.
+  assert (XX : Some (vi_case rows b (s_regs e) (vs_mot s (v_cl s) (v_cc s) (v_pcol s)) g op) = Some e1)
+    by (destruct Hop as [->|[->| ->]]; exact X).
+  clear X. unfold vi_case, region_text in XX. rewrite G1, G2, G3 in XX.
+  destruct (range_split b (v_row s) r2 ltac:(lia) ltac:(lia)) as (pre & x & post & Eb & Lp & Lx).
+  assert (Hx : x <> []) by (intro; subst x; cbn [length] in Lx; lia).
+  assert (ET : lbuf_region b (v_row s) 0 r2 (-1) = concat x).
+  { rewrite Eb, <- Lp. replace r2 with (Z.of_nat (length pre) + Z.of_nat (length x) - 1) by lia. apply region_lines, Hx. }
+  assert (ER : rows_between b (v_row s) (r2 + 1) = x).
+  { rewrite Eb, <- Lp. replace (r2 + 1) with (Z.of_nat (length pre) + Z.of_nat (length x)) by lia. apply rows_between_decomp. }
+  rewrite ET in XX.
+  pose proof HW as HW0. rewrite Eb in HW0. apply buf_wf_app in HW0. destruct HW0 as [_ HW0]. apply buf_wf_app in HW0. destruct HW0 as [HWx _].
+  assert (ES : split_text (map (case_chr op) (concat x)) = map (map (case_chr op)) x).
+  { rewrite concat_map. apply split_text_concat. unfold buf_wf in *. clear -HWx. induction HWx; cbn [map]; constructor; [apply case_line_wf; assumption|assumption]. }
+  assert (EBB : lbuf_edit b (Some (map (case_chr op) (concat x))) (v_row s) (r2 + 1) = b').
+  { unfold b'. rewrite ER. replace (r2 + 1) with (v_row s + Z.of_nat (length x)) by lia. rewrite lbuf_edit_some by lia. rewrite ES.
+    reflexivity. }
+  rewrite EBB in XX. inversion XX; subst e1. clear XX. set (st := vs_pos _ _ _).
+  assert (Hb' : blen b' = blen b).
+  { unfold b', blen, rows_between in *. rewrite !app_length, map_length, !firstn_length, !skipn_length. lia. }
+  assert (Hrow : 0 <= v_row st < blen b') by (unfold st; cbn [vs_pos v_row]; lia).
+  rewrite finish_buf, finish_regs, finish_row, finish_off by exact Hrow. unfold st. cbn [vs_pos v_row v_off]. repeat split; reflexivity.
+Qed.
